@@ -1,9 +1,9 @@
-//! cycle_harness — runs generated *cyclic* cases against the real salsa crate and prints one
-//! observation record per operation, in the same format as ocaml/cycle_driver.ml.
-//!
-//! Families: 0 plain (no recovery), 1 fix (cycle_initial = 0, default cycle_fn),
-//! 2 fixjoin (cycle_fn = last | new, cycle_initial = 0), 3 fallback (cycle_result = 0xA5),
-//! 4 nocycle (no recovery).
+//! persist_harness — the sequential harness built with salsa's `persistence` feature (C26).
+//! Families: 0 plain (persist), 1 lru (persist, lru = 2), 2 noeq (NOT persisted, no_eq),
+//! 3 np (NOT persisted).  History ops of core_harness plus `(snapshot)` = serialize the
+//! database with serde_json into a string kept by the harness, and `(restore)` = build a
+//! FRESH database, deserialize the last snapshot into it and continue the history on it.
+//! Same record format as ocaml/persist_driver.ml.
 //!
 //! A *program* is data: one DSL expression per node (function family, key).  Every
 //! tracked function's body is `interp(db, FAMILY, key)`, which interprets that
@@ -21,7 +21,7 @@ use sexp::Sx;
 
 // ------------------------------------------------------------------ salsa items
 
-#[salsa::input]
+#[salsa::input(persist)]
 struct Inp {
     #[returns(copy)]
     a: u8,
@@ -41,54 +41,29 @@ struct Db {
 impl salsa::Database for Db {}
 
 const FAM_PLAIN: u8 = 0;
-const FAM_FIX: u8 = 1;
-const FAM_FIXJOIN: u8 = 2;
-const FAM_FALLBACK: u8 = 3;
-const FAM_NOCYCLE: u8 = 4;
-const FALLBACK_VALUE: u8 = 0xA5;
-const FAM_NAMES: [&str; 5] = ["plain", "fix", "fixjoin", "fallback", "nocycle"];
+const FAM_LRU: u8 = 1;
+const FAM_NOEQ: u8 = 2;
+const FAM_NP: u8 = 3;
+const LRU_DECLARED: usize = 2;
 
-#[salsa::tracked(returns(copy))]
+#[salsa::tracked(returns(copy), persist)]
 fn plain(db: &dyn salsa::Database, k: Inp) -> u8 {
     interp(db, FAM_PLAIN, k)
 }
 
-#[salsa::tracked(returns(copy), cycle_initial=fix_initial)]
-fn fix(db: &dyn salsa::Database, k: Inp) -> u8 {
-    interp(db, FAM_FIX, k)
+#[salsa::tracked(returns(copy), persist, lru = 2)]
+fn lru_fn(db: &dyn salsa::Database, k: Inp) -> u8 {
+    interp(db, FAM_LRU, k)
 }
 
-#[salsa::tracked(returns(copy), cycle_fn=join_recover, cycle_initial=fix_initial)]
-fn fixjoin(db: &dyn salsa::Database, k: Inp) -> u8 {
-    interp(db, FAM_FIXJOIN, k)
-}
-
-#[salsa::tracked(returns(copy), cycle_result=fallback_result)]
-fn fallback(db: &dyn salsa::Database, k: Inp) -> u8 {
-    interp(db, FAM_FALLBACK, k)
+#[salsa::tracked(returns(copy), no_eq)]
+fn noeq(db: &dyn salsa::Database, k: Inp) -> u8 {
+    interp(db, FAM_NOEQ, k)
 }
 
 #[salsa::tracked(returns(copy))]
-fn nocycle(db: &dyn salsa::Database, k: Inp) -> u8 {
-    interp(db, FAM_NOCYCLE, k)
-}
-
-fn fix_initial(_db: &dyn salsa::Database, _id: salsa::Id, _k: Inp) -> u8 {
-    0
-}
-
-fn join_recover(
-    _db: &dyn salsa::Database,
-    _cycle: &salsa::Cycle,
-    last_provisional_value: &u8,
-    value: u8,
-    _k: Inp,
-) -> u8 {
-    *last_provisional_value | value
-}
-
-fn fallback_result(_db: &dyn salsa::Database, _id: salsa::Id, _k: Inp) -> u8 {
-    FALLBACK_VALUE
+fn np(db: &dyn salsa::Database, k: Inp) -> u8 {
+    interp(db, FAM_NP, k)
 }
 
 // ------------------------------------------------------------------ DSL
@@ -132,10 +107,9 @@ fn call_fam(db: &dyn salsa::Database, cd: &CaseData, fam: u8, key: usize) -> u8 
     let k = cd.inputs[key];
     match fam {
         FAM_PLAIN => plain(db, k),
-        FAM_FIX => fix(db, k),
-        FAM_FIXJOIN => fixjoin(db, k),
-        FAM_FALLBACK => fallback(db, k),
-        FAM_NOCYCLE => nocycle(db, k),
+        FAM_LRU => lru_fn(db, k),
+        FAM_NOEQ => noeq(db, k),
+        FAM_NP => np(db, k),
         _ => panic!("harness: unknown family {fam}"),
     }
 }
@@ -266,10 +240,19 @@ fn names(db: &Db) -> Names {
     let mut fam_of = HashMap::new();
     let mut field_of = HashMap::new();
     for (idx, name) in salsa::verif::ingredient_names(db) {
-        if let Some(f) = FAM_NAMES.iter().position(|n| *n == name) {
-            fam_of.insert(idx, f as u8);
-        }
         match name {
+            "plain" => {
+                fam_of.insert(idx, FAM_PLAIN);
+            }
+            "lru_fn" => {
+                fam_of.insert(idx, FAM_LRU);
+            }
+            "noeq" => {
+                fam_of.insert(idx, FAM_NOEQ);
+            }
+            "np" => {
+                fam_of.insert(idx, FAM_NP);
+            }
             "a" => {
                 field_of.insert(idx, 0);
             }
@@ -324,8 +307,7 @@ fn state_line(db: &Db, nm: &Names, cd: &CaseData, ni: usize, nf: usize) -> Strin
     let mut cc = String::new();
     let mut ins: Vec<(usize, Vec<u64>, Vec<u64>)> = Vec::new();
     let mut memos: Vec<(u8, usize, String)> = Vec::new();
-    let mut syncs: Vec<String> = Vec::new();
-    let mut h7 = false;
+    let mut lrus: Vec<(u8, String)> = Vec::new();
     for line in &dump {
         if let Some(rest) = line.strip_prefix("runtime ") {
             revs = kv(rest, "revisions").to_string();
@@ -340,11 +322,13 @@ fn state_line(db: &Db, nm: &Names, cd: &CaseData, ni: usize, nf: usize) -> Strin
         } else if line.starts_with("memo ") {
             let key = digits(kv(line, "key"))[0] as usize;
             let name = kv(line, "name");
-            let fam = FAM_NAMES
-                .iter()
-                .position(|n| *n == name)
-                .map(|f| f as u8)
-                .unwrap_or(255);
+            let fam = match name {
+                "plain" => FAM_PLAIN,
+                "lru_fn" => FAM_LRU,
+                "noeq" => FAM_NOEQ,
+                "np" => FAM_NP,
+                _ => 255,
+            };
             let origin = kv(line, "origin");
             let untracked = match origin {
                 "derived" => "0".to_string(),
@@ -368,47 +352,39 @@ fn state_line(db: &Db, nm: &Names, cd: &CaseData, ni: usize, nf: usize) -> Strin
                     edges.push(format!("o{e}"));
                 }
             }
-            // cycle data: final flag, iteration byte, cancellation byte, heads in vector order
-            let mut heads = Vec::new();
-            for h in kv(line, "heads").split(',').filter(|s| !s.is_empty()) {
-                let (k, it) = h.split_once('@').unwrap();
-                let parts: Vec<&str> = k.split(':').collect();
-                let ing: u32 = parts[0].parse().unwrap();
-                let idx: usize = parts[1].parse().unwrap();
-                match nm.fam_of.get(&ing) {
-                    Some(fam) => heads.push(format!("{fam}.{idx}@{it}")),
-                    None => heads.push(format!("?{h}")),
-                }
+            let mut extra = String::new();
+            if kv(line, "final") != "1" {
+                extra.push_str(":provisional");
             }
-            assert!(kv(line, "structs").is_empty());
-            let conv = if line.contains(" conv=") {
-                format!(":{}", kv(line, "conv"))
-            } else {
-                String::new()
-            };
+            if !kv(line, "heads").is_empty() {
+                extra.push_str(&format!(":heads={}", kv(line, "heads")));
+            }
+            if !kv(line, "structs").is_empty() {
+                extra.push_str(&format!(":structs={}", kv(line, "structs")));
+            }
+            if kv(line, "iter") != "0" {
+                extra.push_str(&format!(":iter={}", kv(line, "iter")));
+            }
             memos.push((
                 fam,
                 key,
                 format!(
-                    "{}:{}:{}:{}:{}:[{}]:{}:{}:{}:[{}]{}",
+                    "{}:{}:{}:{}:{}:[{}]{}",
                     kv(line, "has_value"),
                     kv(line, "verified_at"),
                     kv(line, "changed_at"),
                     kv(line, "dur"),
                     untracked,
                     edges.join(","),
-                    kv(line, "final"),
-                    kv(line, "iter"),
-                    kv(line, "ccount"),
-                    heads.join(","),
-                    conv
+                    extra
                 ),
             ));
-        } else if let Some(rest) = line.strip_prefix("sync ") {
-            // optional (hook H7): sync table entries and the transferred map
-            syncs.push(sync_entry(nm, rest));
-        } else if line.starts_with("h7 ") {
-            h7 = true;
+        } else if line.starts_with("fn ") {
+            let name = kv(line, "name");
+            if name == "lru_fn" {
+                let ev = kv(line, "eviction");
+                lrus.push((FAM_LRU, format!("{}:[{}]", kv(ev, "cap"), kv(ev, "order"))));
+            }
         }
     }
     let _ = cd;
@@ -429,37 +405,11 @@ fn state_line(db: &Db, nm: &Names, cd: &CaseData, ni: usize, nf: usize) -> Strin
     for (fam, key, m) in &memos {
         s.push_str(&format!("{fam}.{key}:{m};"));
     }
-    if h7 {
-        syncs.sort();
-        s.push_str(" sync=");
-        for l in &syncs {
-            s.push_str(l);
-        }
+    s.push_str(" lru=");
+    for (fam, l) in &lrus {
+        s.push_str(&format!("{fam}:{l};"));
     }
     s
-}
-
-/// A `sync ...` line of hook H7 with ingredient indices replaced by family numbers:
-/// `F.K:m|t:waiting:target:twice;` for a claim, `F.K->F.K:tr;` for a lock transfer.
-fn sync_entry(nm: &Names, l: &str) -> String {
-    let mut t = String::new();
-    for (n, part) in l.split("->").enumerate() {
-        if n > 0 {
-            t.push_str("->");
-        }
-        let ps: Vec<&str> = part.split(':').collect();
-        let ing: u32 = ps[0].parse().unwrap();
-        match nm.fam_of.get(&ing) {
-            Some(fam) => t.push_str(&format!("{fam}.{}", ps[1])),
-            None => t.push_str(&format!("?{}.{}", ps[0], ps[1])),
-        }
-        for extra in &ps[2..] {
-            t.push(':');
-            t.push_str(extra);
-        }
-    }
-    t.push(';');
-    t
 }
 
 // ------------------------------------------------------------------ running a case
@@ -488,6 +438,13 @@ fn run_case(line: &str) {
     let nk = geti("nk", 1) as usize;
     let ni = geti("ni", 1) as usize;
     let nf = geti("nf", 3) as usize;
+    for c in cfg {
+        let l = c.list();
+        if l[0].is_atom("lru") {
+            assert_eq!(l[1].int() as u8, FAM_LRU, "only family 1 has an lru policy");
+            assert_eq!(l[2].int() as usize, LRU_DECLARED, "declared lru capacity is fixed");
+        }
+    }
     let tri = |name: &str| -> HashMap<(usize, usize), i64> {
         find(&items[2..], name)
             .iter()
@@ -501,20 +458,22 @@ fn run_case(line: &str) {
     let idur = tri("idur");
 
     let log: Arc<Mutex<Vec<salsa::Event>>> = Arc::new(Mutex::new(Vec::new()));
-    let log2 = log.clone();
-    let mut db = Db {
-        storage: salsa::Storage::new(Some(Box::new(move |e: salsa::Event| {
-            match e.kind {
-                salsa::EventKind::WillExecute { .. }
-                | salsa::EventKind::DidValidateMemoizedValue { .. }
-                | salsa::EventKind::WillIterateCycle { .. }
-                | salsa::EventKind::DidFinalizeCycle { .. } => {
-                    log2.lock().unwrap().push(e);
+    let new_db = |log: &Arc<Mutex<Vec<salsa::Event>>>| -> Db {
+        let log2 = log.clone();
+        Db {
+            storage: salsa::Storage::new(Some(Box::new(move |e: salsa::Event| {
+                match e.kind {
+                    salsa::EventKind::WillExecute { .. }
+                    | salsa::EventKind::DidValidateMemoizedValue { .. } => {
+                        log2.lock().unwrap().push(e);
+                    }
+                    _ => {}
                 }
-                _ => {}
-            }
-        }))),
+            }))),
+        }
     };
+    let mut db = new_db(&log);
+    let mut snapshot: Option<String> = None;
     for c in CELLS.iter().chain(PCELLS.iter()) {
         c.store(0, Ordering::SeqCst);
     }
@@ -588,6 +547,31 @@ fn run_case(line: &str) {
                 let key = l[2].int() as usize;
                 catch_unwind(AssertUnwindSafe(|| call_fam(&db, &cd, fam, key)))
             }
+            "snapshot" => {
+                let s = serde_json::to_string(&<dyn salsa::Database>::as_serialize(&mut db))
+                    .expect("serialize");
+                snapshot = Some(s);
+                Ok(0)
+            }
+            "restore" => {
+                let s = snapshot.as_ref().expect("harness: restore without snapshot");
+                let mut fresh = new_db(&log);
+                <dyn salsa::Database>::deserialize(
+                    &mut fresh,
+                    &mut serde_json::Deserializer::from_str(s),
+                )
+                .expect("deserialize");
+                db = fresh;
+                Ok(0)
+            }
+            "setlru" => {
+                assert_eq!(l[1].int() as u8, FAM_LRU);
+                let n = l[2].int() as usize;
+                catch_unwind(AssertUnwindSafe(|| {
+                    lru_fn::set_lru_capacity(&mut db, n);
+                    0
+                }))
+            }
             "evict" => catch_unwind(AssertUnwindSafe(|| {
                 db.trigger_lru_eviction();
                 0
@@ -600,27 +584,14 @@ fn run_case(line: &str) {
         }
         let mut ev = String::new();
         for e in log.lock().unwrap().iter() {
-            let (tag, key, it) = match e.kind {
-                salsa::EventKind::WillExecute { database_key } => ("x", database_key, None),
-                salsa::EventKind::DidValidateMemoizedValue { database_key } => {
-                    ("v", database_key, None)
-                }
-                salsa::EventKind::WillIterateCycle {
-                    database_key,
-                    iteration,
-                } => ("i", database_key, Some(iteration as u32)),
-                salsa::EventKind::DidFinalizeCycle {
-                    database_key,
-                    iteration,
-                } => ("f", database_key, Some(iteration as u32)),
+            let (tag, key) = match e.kind {
+                salsa::EventKind::WillExecute { database_key } => ("x", database_key),
+                salsa::EventKind::DidValidateMemoizedValue { database_key } => ("v", database_key),
                 _ => continue,
             };
             let (ing, kidx, _gen) = salsa::verif::key_parts(key);
             let fam = nm.fam_of.get(&ing).copied().unwrap_or(255);
-            match it {
-                Some(it) => ev.push_str(&format!(" {tag}:{fam}.{kidx}@{it}")),
-                None => ev.push_str(&format!(" {tag}:{fam}.{kidx}")),
-            }
+            ev.push_str(&format!(" {tag}:{fam}.{kidx}"));
         }
         println!("E {idx}{ev}");
         println!("S {idx} {}", state_line(&db, &nm, &cd, ni, nf));
@@ -631,7 +602,7 @@ fn run_case(line: &str) {
 fn main() {
     // keep the default panic hook quiet: panics are expected outcomes here
     std::panic::set_hook(Box::new(|_| {}));
-    let path = std::env::args().nth(1).expect("usage: cycle_harness CASEFILE");
+    let path = std::env::args().nth(1).expect("usage: persist_harness CASEFILE");
     let text = std::fs::read_to_string(path).unwrap();
     for line in text.lines() {
         if line.starts_with('(') {
